@@ -12,6 +12,7 @@ import (
 
 	"github.com/bmatcuk/doublestar/v4"
 	"github.com/zitadel/oidc/v3/pkg/oidc"
+	"github.com/zitadel/oidc/v3/pkg/op"
 
 	"verif/sim/kernel"
 	"verif/sim/world"
@@ -253,7 +254,19 @@ func RunC18(t *testing.T, spec kernel.Spec) *kernel.Outcome {
 		if tc := tape.Sub("cfg-tenants"); tc.Bool(1, 2) {
 			tenants = 2 + tc.Int(2) // one provider, several issuers (by Host or by Forwarded header behind a proxy)
 		}
-		w, err := world.NewStd(o, tape, world.StdOptions{Router: spec.Params["router"], ForceConfig: nil, Tenants: tenants})
+		// a rarely used setting: the hint verifier may be given a maximum age of its own (issued-at). A hint that is
+		// too old by that rule is an expired hint like one past its exp: still good for logout.
+		var opts []op.Option
+		maxAge := time.Duration(0)
+		if mc := tape.Sub("cfg-hint-max-age"); mc.Bool(1, 2) {
+			maxAge = time.Duration(mc.Range(2, 8)) * time.Minute
+			var all []string
+			for _, f := range world.AlgFamilies {
+				all = append(all, string(f.Alg))
+			}
+			opts = append(opts, op.WithIDTokenHintVerifierOpts(op.WithSupportedIDTokenHintSigningAlgorithms(all...), func(v *op.IDTokenHintVerifier) { v.MaxAgeIAT = maxAge }))
+		}
+		w, err := world.NewStd(o, tape, world.StdOptions{Router: spec.Params["router"], ForceConfig: nil, Tenants: tenants, Options: opts})
 		if err != nil {
 			o.Infra = "world: " + err.Error()
 			return
@@ -272,7 +285,7 @@ func RunC18(t *testing.T, spec kernel.Spec) *kernel.Outcome {
 					cl.PostLogout = append(cl.PostLogout, lit)
 				}
 			}
-			cl.IDLifetime = time.Duration(cfg.Range(1, 10)) * time.Minute
+			cl.IDLifetime = time.Duration(cfg.Range(1, 20)) * time.Minute
 		}
 		c := &c18{w: w, o: o, b: w.Net.NewBrowser("b1")}
 		c.tw = &tokenWorld{w: w, o: o, prop: "C18", b: c.b}
@@ -300,7 +313,7 @@ func RunC18(t *testing.T, spec kernel.Spec) *kernel.Outcome {
 				return c.logout(ch)
 			}
 		})
-		o.Log = append([]string{fmt.Sprintf("config: router=%s alg=%s default=%s issuers=%v (%s)", w.Router, w.SigAlg, w.Conf.DefaultLogoutRedirectURI, w.Issuers, w.IssuerMode)}, o.Log...)
+		o.Log = append([]string{fmt.Sprintf("config: router=%s alg=%s default=%s issuers=%v (%s) hint-max-age=%v", w.Router, w.SigAlg, w.Conf.DefaultLogoutRedirectURI, w.Issuers, w.IssuerMode, maxAge)}, o.Log...)
 		o.Sample = map[string]any{"seed": spec.Seed, "router": w.Router, "steps": o.Trace}
 	})
 	o.Nontrivial = o.Probes["logout-redirect"] > 0 && o.Probes["logout-rejected"] > 0
